@@ -172,8 +172,20 @@ func tabsSx(a absTabs, order []string) vlib.Sx {
 		}
 		sort.Ints(ids)
 		t := vlib.List{}
-		for _, id := range ids {
-			t = append(t, vlib.L(vlib.Int(id), runesSx([]rune(m[id]))))
+		for i := 0; i < len(ids); {
+			// runs of at least 8 consecutive ids with the same string: (idrange start count runes)
+			j := i
+			for j < len(ids) && ids[j] == ids[i]+(j-i) && m[ids[j]] == m[ids[i]] {
+				j++
+			}
+			if j-i >= 8 {
+				t = append(t, vlib.L(vlib.Atom("idrange"), vlib.Int(ids[i]), vlib.Int(j-i), runesSx([]rune(m[ids[i]]))))
+			} else {
+				for k := i; k < j; k++ {
+					t = append(t, vlib.L(vlib.Int(ids[k]), runesSx([]rune(m[ids[k]]))))
+				}
+			}
+			i = j
 		}
 		l = append(l, vlib.L(vlib.Hex([]byte(tag)), t))
 	}
@@ -216,11 +228,30 @@ func asTabs(x vlib.Sx) (absTabs, error) {
 		m := map[int]string{}
 		for _, te := range tl {
 			q, err := vlib.AsList(te)
-			if err != nil || len(q) != 2 {
+			if err != nil {
 				return nil, fmt.Errorf("bad table entry")
 			}
-			id, err := vlib.AsInt(q[0])
-			if err != nil || id < 0 || id > 65535 {
+			start, count := 0, 1
+			if len(q) == 4 {
+				if a, _ := vlib.AsAtom(q[0]); a != "idrange" {
+					return nil, fmt.Errorf("bad table entry")
+				}
+				if start, err = vlib.AsInt(q[1]); err != nil {
+					return nil, err
+				}
+				if count, err = vlib.AsInt(q[2]); err != nil || count < 1 || start+count-1 > 65535 {
+					return nil, fmt.Errorf("bad id range")
+				}
+				q = q[2:]
+			} else if len(q) == 2 {
+				if start, err = vlib.AsInt(q[0]); err != nil {
+					return nil, err
+				}
+			} else {
+				return nil, fmt.Errorf("bad table entry")
+			}
+			id := start
+			if id < 0 || id > 65535 {
 				return nil, fmt.Errorf("bad name id")
 			}
 			rr, err := asRunes(q[1])
@@ -235,10 +266,12 @@ func asTabs(x vlib.Sx) (absTabs, error) {
 			if len(rr) == 0 {
 				return nil, fmt.Errorf("empty name string")
 			}
-			if _, dup := m[id]; dup {
-				return nil, fmt.Errorf("duplicate name id")
+			for ; id < start+count; id++ {
+				if _, dup := m[id]; dup {
+					return nil, fmt.Errorf("duplicate name id")
+				}
+				m[id] = string(rr)
 			}
-			m[id] = string(rr)
 		}
 		if _, dup := a[string(tag)]; dup {
 			return nil, fmt.Errorf("duplicate tag")
